@@ -65,3 +65,10 @@ prop("C13",
      level_note="Trusted: Lean kernel; harness diff and text parser; the Prometheus client (registry, text encoder) and its validity rules as modelled (legacy name scheme, UTF-8 label values, duplicate label names); int->float conversion is an oracle computed by Go directly. HELP/TYPE comment lines other than the type are not compared. Precondition of the property (no two series with the same name and label set; distinct names modulo hyphens) is enforced by the generator.",
      rule="seeded random stores: 0-6 metrics with distinct names (incl. hyphenated, invalid, non-ASCII, empty), kinds counter/gauge/timer/text/histogram, types int/float/string/buckets, 0-3 keys (incl. invalid, reserved, duplicate, `prog`), 0-5 label sets with values incl. empty, spaces, quotes, newline, backslash, non-UTF-8; ints incl. +-2^53+1 and int64 extremes; floats incl. NaN, +-Inf, -0; prog label and timestamps on/off. Non-trivial = distinct cases expecting at least one sample.",
      assumptions=["the registry sorts families and label pairs; comparison is on sorted canonical samples"])
+
+prop("C22",
+     gens=[],
+     level_text="Proof over the model of formatLabels, metricToGraphite/Statsd/Collectd/Varz and the push/handler loops: the record(s) of a label set are a function of the metric's static fields and that label set's own datum only - non-interference with every other label set (graphite/statsd/collectd/varz_own_label_set); a graphite histogram yields one line per bucket plus count plus value line, each ending in the label set's own timestamp (graphite_shape); the loops produce exactly one record per label set in order (one_record_per_label_set[_handlers]). Number formatting is an oracle (fmt called directly by the harness). Tie: random stores with several label sets of distinct values; the real formatter functions, HandleVarz/HandleGraphite bodies and HandleJSON output are compared byte for byte (JSON as parsed trees) with the model, and the property (own value, own timestamp, own bucket counts, JSON round trip) is evaluated on the real records.",
+     level_note="Trusted: Lean kernel; harness diff; fmt's %d/%g/%v as oracles; encoding/json (the JSON side of the model is the value tree, not the bytes). The theorems are about the model; which datum each formatter reads in the Go code is tied by the byte-for-byte correspondence on stores whose label sets hold distinct values.",
+     rule="seeded random stores (0-5 metrics, every kind/type, 0-3 keys, 0-5 label sets with distinct values incl. histograms with different observations per label set, non-finite floats; 3 of 4 stores with separator-free label values), 3 hostnames x 3 prefixes, prog label on/off. Non-trivial = distinct cases with at least one label set.",
+     assumptions=["label values without whitespace or field separators for the parse-back part of the predicate (as the property states)"])
